@@ -67,6 +67,11 @@ KindDepth(k) ==
 (* Exported with every case; the binder builds each variant that differs.  *)
 (***************************************************************************)
 Containers == <<"list", "tuple", "inner", "outer">>
+\* Attribute objects.  "From an attribute object" means any object with attributes `type` and `coordinates`; what kind of
+\* object carries them is no part of validity either: a namespace, an instance of a plain class, a dataclass, a named
+\* tuple, a pydantic model of somebody else's (with only those two fields, and with more).  Exported with every case;
+\* the attributes mode is run once per guise and judged by the same clauses.
+Guises == <<"namespace", "plain", "dataclass", "namedtuple", "pydantic", "pydantic_extra">>
 
 (* ------------------------------ the parser ------------------------------ *)
 Delta(t) == IF t = OPEN THEN 1 ELSE IF t = CLOSE THEN -1 ELSE 0
